@@ -237,13 +237,14 @@ def cli_sub(argv, cwd, guard=False, timeout=300, env_extra=None, hashseed="0", a
         warnings_as_errors_runs[0] += 1
     cmd = [core.PY] + flags + ["-m", "suit_generator.cli"] + respell(argv)
     rl = random.Random(f"fsize/{_subs[0]}")
-    if rl.random() < 0.2:
+    if rl.random() < 0.2 and not any("/dev/fd/" in str(a) or "/dev/stdin" in str(a) for a in argv):
         # an OS-level fault for the real CLI: a file-size limit (ulimit -f / quota / nearly full disk). A run that fails
         # under the limit is repeated without it (inputs restored first - in-place operations destroy them); a run that
         # EXITS 0 under the limit is judged by the caller's oracle like any other
         from .mon import faults
         limit = rl.choice([0, 1, 7, 16, 40, 100, 300, 1000, 4096, 40000])
         snap = faults._snapshot([str(a) for a in argv])
+        absent = faults._absent([str(a) for a in argv])
 
         def _limit():
             import resource
@@ -253,6 +254,7 @@ def cli_sub(argv, cwd, guard=False, timeout=300, env_extra=None, hashseed="0", a
             file_size_limit_runs["exit-0"] += 1
             return 0, p.stderr.decode("utf-8", "replace")[-1500:]
         file_size_limit_runs["failed"] += 1
+        faults._remove_new(absent)
         for path, data in snap.items():
             with open(path, "wb") as fh:
                 fh.write(data)
@@ -369,13 +371,18 @@ def _content_key(path):
         return "?"
 
 
-def _under_faults(key, once, route, p=0.03):
+def _under_faults(key, once, route, p=0.03, cleanup=()):
     """vlib/mon/faults.py: a share of the in-process operations meets an injected I/O fault; one that fails is run
     again without it, one that reports success is judged by the caller's oracle like any other"""
     from .mon import faults
     box = {}
 
     def invoke():
+        if "o" in box and cleanup:
+            for q in cleanup:
+                if q not in _stale_sig:
+                    with contextlib.suppress(OSError):
+                        _real_unlink(q)
         box["o"] = o = once()
         return None if o.tool_ok else (o.exc or RuntimeError("failed"))
     faults.run(key, invoke, p=p if route in ("lib", "cmd", "cli") else 0)
@@ -383,7 +390,13 @@ def _under_faults(key, once, route, p=0.03):
 
 
 def create_file(src, dst, route="lib", fmt="AUTO"):
-    return _under_faults(f"create/{route}/{_content_key(src)}", lambda: _create_file_once(src, dst, route, fmt), route)
+    try:
+        with open(src, "rb") as fh:
+            once_only = b"/dev/fd/" in fh.read(1 << 20)
+    except OSError:
+        once_only = False
+    return _under_faults(f"create/{route}/{_content_key(src)}", lambda: _create_file_once(src, dst, route, fmt), route,
+                         p=0 if once_only else 0.03, cleanup=(dst,))
 
 
 def _create_file_once(src, dst, route="lib", fmt="AUTO"):
@@ -428,7 +441,7 @@ def parse(data, workdir, route="lib", fmt="json", hierarchy=False):
         fh.write(data)
     try:
         return _under_faults(f"parse/{route}/{fmt}/{_content_key(src)}",
-                             lambda: _parse_once(src, dst, workdir, route, fmt, hierarchy), route)
+                             lambda: _parse_once(src, dst, workdir, route, fmt, hierarchy), route, cleanup=(dst,))
     finally:
         for p in (src, dst):
             with contextlib.suppress(OSError):
